@@ -331,8 +331,20 @@ func isScheduledRule(fact map[string]interface{}) bool {
 	if !ok {
 		return false
 	}
-	_, scheduled := rule["schedule"]
-	return scheduled
+	return hasSchedule(rule)
+}
+
+// hasSchedule reports whether the rule body has a schedule.  An empty
+// (or null) 'schedule' is none: RuleFromJSON reads such a rule as an
+// ordinary rule with a 'when', the cron hooks skip it, and linear
+// state dispatches it, so it belongs in the rule index, too.
+func hasSchedule(rule map[string]interface{}) bool {
+	schedule, given := rule["schedule"]
+	if !given || schedule == nil {
+		return false
+	}
+	s, isString := schedule.(string)
+	return !isString || s != ""
 }
 
 func Expire(ctx *Context, s State, id string, fact map[string]interface{}, now int64) (bool, error) {
